@@ -97,6 +97,7 @@ def register(reg):
                if 'xpeak' in kwspec else []),
         ))
     register_quadratic(reg)
+    register_round(reg)
 
 
 def register_quadratic(reg):
@@ -145,3 +146,25 @@ def register_quadratic(reg):
                  ('det = 4 * c20 * c02 - c11**2', 'det = 4 * c20 * c02 + c11**2'),
                  ('_, c10, c01, c11, c20, c02 = c', '_, c01, c10, c11, c20, c02 = c')],
     ))
+
+
+def register_round(reg):
+    """py2intround "the pixel containing the position": round to nearest, ties away from zero --
+    n with n - 1/2 <= a < n + 1/2 for a >= 0 and n - 1/2 < a <= n + 1/2 for a < 0 (the start pixel
+    of centroid_quadratic for a given xpeak / ypeak, and the star finders' xycoords)."""
+    R = 'photutils/utils/_round.py::py2intround'
+    for tag, req, spec in (
+            ('non-negative', 'a >= 0', 'result - 1 / 2 <= a and a < result + 1 / 2'),
+            ('negative', 'a < 0', 'result - 1 / 2 < a and a <= result + 1 / 2')):
+        reg.add(Contract(
+            target=R, props=['C17', 'C14'], tag=tag,
+            params={'a': 'real'},
+            requires=[req],
+            replay={'call': 'photutils.utils._round:py2intround', 'args': ['a']},
+            ensures=[('nearest-integer-ties-away-from-zero', f'is_int(result) and {spec}')],
+            mutants=([('np.floor(data + 0.5)', 'np.floor(data)'),
+                      ('np.floor(data + 0.5)', 'np.ceil(data - 0.5)')] if tag == 'non-negative' else
+                     [('np.ceil(data - 0.5)', 'np.floor(data - 0.5)'),
+                      ('np.ceil(data - 0.5)', 'np.floor(data + 0.5)')])
+            + [('data >= 0', 'data > 1') if tag == 'non-negative' else ('data >= 0', 'data >= -1')],
+        ))
